@@ -11,6 +11,7 @@ Variable lit : string -> outcome litres.
 Variable re_search : string -> string -> outcome reres.
 Variable tm : terms.
 Variable o : opts.
+Hypothesis Hnx : o_expand o = false.
 
 Notation satb := (satb lit re_search tm).
 Notation enum := (enum lit re_search tm o).
@@ -68,7 +69,8 @@ Proof.
     assert (Hc : child_at (NMap i kvs) (key_ref kn) v) by (constructor; auto).
     unfold entry_enum in Hin. simpl fst in Hin. simpl snd in Hin.
     destruct (o_keys o && satb (key_val kn)) eqn:Ek.
-    + destruct Hin as [Hin|[]]. inversion Hin; subst. exists [key_ref kn]. split; [reflexivity|].
+    + unfold key_hit_enum in Hin. rewrite Hnx in Hin.
+      destruct Hin as [Hin|[]]. inversion Hin; subst. exists [key_ref kn]. split; [reflexivity|].
       apply andb_true_iff in Ek. destruct Ek.
       exists [], (NMap i kvs), (key_ref kn). split; [reflexivity|]. split; [constructor|].
       simpl. split; auto. exists i, kvs, kn, v. auto.
@@ -101,7 +103,7 @@ Lemma key_hit_covers i kvs kn v lc l k :
 Proof.
   intros Hin Ek. destruct (In_nth _ _ Hin) as [j Hn].
   exists (lc ++ [key_ref kn])%list, HKey, [key_ref kn]. split.
-  - simpl. apply In_floop. exists j, (kn, v). split; auto. unfold entry_enum. simpl. rewrite Ek. left; reflexivity.
+  - simpl. apply In_floop. exists j, (kn, v). split; auto. unfold entry_enum, key_hit_enum. simpl. rewrite Ek, Hnx. left; reflexivity.
   - split; [reflexivity|]. split; [exists l; reflexivity|]. right. split; auto.
     apply andb_true_iff in Ek. tauto.
 Qed.
@@ -235,7 +237,7 @@ Lemma entry_enum_locs_prefix kv lc l :
   In l (locs (entry_enum lit re_search tm o (fun v l => enum v l) lc kv)) ->
   exists s, l = (lc ++ key_ref (fst kv) :: s)%list.
 Proof.
-  unfold entry_enum. destruct (o_keys o && satb (key_val (fst kv))).
+  unfold entry_enum, key_hit_enum. rewrite Hnx. destruct (o_keys o && satb (key_val (fst kv))).
   - simpl. intros [<-|[]]. exists []. reflexivity.
   - apply val_enum_locs_prefix.
 Qed.
@@ -276,7 +278,8 @@ Proof.
   - constructor.
   - rewrite locs_floop. apply NoDup_floop.
     + intros j kv Hj. pose proof (nth_error_In _ _ Hj) as Hin.
-      unfold entry_enum. destruct (o_keys o && satb (key_val (fst kv))); [simpl; repeat constructor; auto|].
+      unfold entry_enum, key_hit_enum. rewrite Hnx.
+      destruct (o_keys o && satb (key_val (fst kv))); [simpl; repeat constructor; auto|].
       apply val_enum_nodup. intros lc'. rewrite Forall_forall in IH. apply (IH _ Hin).
       eapply nodup_keys_map_children; eauto.
     + intros j1 j2 a1 a2 x Hne H1 H2 Hx1 Hx2.
